@@ -158,6 +158,13 @@ pub fn gen_case(r: &mut Rng) -> Case {
             let f = if r.chance(0.6) { F2::Poly(vec![(0, 0, r.dyadic(-2.0, 2.0, 3))]) } else { F2::Poly(vec![(0, 0, r.dyadic(-2.0, 2.0, 3)), (1, 0, r.dyadic(-2.0, 2.0, 3) * 2f64.powi(-40)), (0, 1, r.dyadic(-2.0, 2.0, 3) * 2f64.powi(-40))]) };
             return Case::Tri { f, t, tol: if tol.is_finite() && tol > 0.0 { tol } else { 1e-6 }, mi };
         }
+        // tiny triangles under a large constant integrand (the integral stays of order one)
+        if r.chance(0.1) {
+            let k = r.range(20, 40) as i32;
+            for v in t.iter_mut() { v[0] *= 2f64.powi(-k); v[1] *= 2f64.powi(-k); }
+            let f = F2::Poly(vec![(0, 0, r.dyadic(0.5, 2.0, 3) * 2f64.powi(2 * k))]);
+            return Case::Tri { f, t, tol: if tol.is_finite() && tol > 0.0 { tol } else { 1e-6 }, mi };
+        }
         Case::Tri { f, t, tol, mi }
     } else {
         let (a, b) = match r.below(10) { 0 => { let a = r.dyadic(-2.0, 2.0, 2); (a, a) } _ => (r.dyadic(-2.0, 2.0, 2), r.dyadic(-2.0, 2.0, 2)) };
@@ -216,10 +223,12 @@ fn judge(c: &Case, out: &Outcome, logs: &Logs, rep: &mut Report, gl: &[(f64, f64
                 if tol.is_finite() && (v - refv).abs() > tol.max(0.0) + floor { rep.finding("oracle", &["C09"], "inaccurate", input.clone(), format!("v={v:e} ref={refv:e} tol={tol:e}")); }
                 // constant integrand: the integral is coef * area, and the area of a triangle with dyadic vertices is exact in i128
                 if let F2::Poly(terms) = &fe {
-                    if terms.len() == 1 && terms[0].0 == 0 && terms[0].1 == 0 && t.iter().flatten().all(|x| (x * 4.0).fract() == 0.0 && x.abs() < 1e15) {
-                        let q = |x: f64| (x * 4.0) as i128;
+                    // the smallest power-of-two scale that makes every coordinate an integer below 2^50
+                    let sc = (0..=80).map(|k| 2f64.powi(k - 4)).find(|s| t.iter().flatten().all(|x| (x * s).fract() == 0.0 && (x * s).abs() < 1e15));
+                    if let (true, Some(sc)) = (terms.len() == 1 && terms[0].0 == 0 && terms[0].1 == 0, sc) {
+                        let q = |x: f64| (x * sc) as i128;
                         let cr = (q(t[1][0]) - q(t[0][0])) * (q(t[2][1]) - q(t[0][1])) - (q(t[1][1]) - q(t[0][1])) * (q(t[2][0]) - q(t[0][0]));
-                        let exact = terms[0].2 * (cr.abs() as f64) / 32.0;
+                        let exact = terms[0].2 * (cr.abs() as f64) / 2.0 / sc / sc;
                         rep.count("oracle:exact-area");
                         if tol.is_finite() && (v - exact).abs() > tol.max(0.0) + 1e-12 * exact.abs() { rep.finding("oracle", &["C09", "C08"], "constant-over-triangle-not-area", input.clone(), format!("v={v:e} exact={exact:e} tol={tol:e}")); }
                     }
@@ -256,6 +265,25 @@ pub fn run(o: &Opts) -> Report {
         Case::Tri { f: F2::Poly(vec![(0, 0, 1.0)]), t: [[0.0, 0.0], [1.0, 0.0], [0.0, 1.0]], tol: 1e-9, mi: Some(10) },
     ];
     for _ in 0..n { cases.push(gen_case(&mut r)); }
+    // budget sweep: oscillatory integrands that need several outer bisections, run with the smallest budget that
+    // succeeds and with its two neighbours (what happens exactly when the budget runs out is otherwise almost never met)
+    {
+        let with_mi = |c: &Case, mi: Option<usize>| -> Case { match c {
+            Case::Region { f, a, b, ab, tol, .. } => Case::Region { f: f.clone(), a: *a, b: *b, ab: ab.clone(), tol: *tol, mi },
+            Case::Tri { f, t, tol, .. } => Case::Tri { f: f.clone(), t: *t, tol: *tol, mi } } };
+        let mut found = 0;
+        for _ in 0..(if o.thorough { 160 } else { 24 }) {
+            let w = r.uniform(4.0, 25.0) * if r.chance(0.5) { 1.0 } else { -1.0 };
+            let f = F2::Smooth(*r.pick(&[0u8, 2]), w, r.uniform(-2.0, 2.0));
+            let tol = 10f64.powi(r.range(-9, -4) as i32);
+            let base = if r.chance(0.5) { Case::Tri { f, t: [[0.0, 0.0], [r.dyadic(1.0, 3.0, 2), 0.0], [r.dyadic(-1.0, 1.0, 2), r.dyadic(1.0, 3.0, 2)]], tol, mi: None } }
+                       else { Case::Region { f, a: 0.0, b: r.dyadic(1.0, 3.0, 2), ab: Bounds { l: vec![0.0], u: vec![1.0, r.dyadic(0.0, 0.5, 2)] }, tol, mi: None } };
+            let mut kmin = None;
+            for k in 0..=24usize { if let (Outcome::Ok(..), _) = run_impl(&with_mi(&base, Some(k))) { kmin = Some(k); break; } }
+            if let Some(k) = kmin { if k >= 1 { found += 1; for kk in [k - 1, k, k + 1] { cases.push(with_mi(&base, Some(kk))); } } }
+        }
+        rep.count_n("budget-sweep:integrands-needing-bisection", found);
+    }
     let results: Vec<(Outcome, Logs)> = {
         let slots: Vec<std::sync::Mutex<Option<(Outcome, Logs)>>> = (0..cases.len()).map(|_| std::sync::Mutex::new(None)).collect();
         let next = std::sync::atomic::AtomicUsize::new(0);
